@@ -537,4 +537,3 @@ func c08Concurrent(ctx *core.Ctx, out *core.Out) {
 		}
 	}
 }
-
